@@ -40,6 +40,16 @@ func applyFault(c *model.Corpus, sd *model.StructDef, op *OpSpec, clean []byte, 
 			return b, "trunc(empty)"
 		}
 		k := r.Intn(len(b))
+		if p := pick("strlen", "count"); p != nil && r.Chance(1, 3) {
+			// cut shortly after a variable-size piece ends: inside whatever fixed-width value or header follows it
+			end := p.Off + 4
+			if p.Kind == "strlen" {
+				end += p.Aux
+			}
+			if c := end + r.Intn(9); c < len(b) {
+				k = c
+			}
+		}
 		return b[:k], model.Sf("truncate at %d of %d", k, len(b))
 	case "flip":
 		n := 1 + r.Intn(3)
